@@ -83,6 +83,10 @@ pub fn legacy_name(instance: u64) -> String {
     // not injective on purpose: instance 7 gets the address of instance 0, 8 that of 1, … (a classic instantiation at
     // an occupied address must be refused)
     let instance = instance % 7;
+    if instance == 5 {
+        // a very long address (namespace `contract_data/<addr>` of 256 bytes: the second length byte of the prefix matters)
+        return format!("contract5{}", "x".repeat(233));
+    }
     if instance == 6 {
         // a non-ASCII address whose characters agree with `contract0` modulo 256 (U+0161 vs U+0061): different UTF-8 bytes,
         // different contract, different key space
